@@ -187,6 +187,36 @@ def run_case(case, ctx):
             if tp.shape != tc.shape or not numpy.allclose(tc, tp, **tol):
                 ctx.violation(K + "transform-differs", "transform on another corpus differs", cfg=cfg,
                               other=other)
+        # history: the SAME two vectorizer objects reconfigured with set_params and fitted again, three times
+        # (an instance-level memo keyed on the tokens alone would survive the change of n-gram range / stop words)
+        hrng = numpy.random.RandomState(case["sub"] % 1000 + 3)
+        for step in range(3):
+            o2 = make_options(hrng)
+            upd = {"ngram_range": o2["ngram_range"], "stop_words": o2.get("stop_words"),
+                   "lowercase": o2.get("lowercase", True), "binary": o2.get("binary", False)}
+            cfg2 = dict(cfg, history_step=step, set_params={k: (list(v) if isinstance(v, tuple) else v)
+                                                            for k, v in upd.items()})
+            docs = corpus if step != 1 else corpus + other
+            p.set_params(**upd)
+            c.set_params(**upd)
+            hp, hep = attempt(lambda: p.fit_transform(docs))
+            hc, hec = attempt(lambda: c.fit_transform(docs))
+            ctx.hit("history.set_params_refit")
+            if hep is not None or hec is not None:
+                if (hep is None) != (hec is None):
+                    ctx.violation(K + "refusal-differs/after-set_params", "scikit-learn: %r, traceable: %r" % (hep, hec),
+                                  cfg=cfg2)
+                    break
+                continue
+            if hp.shape != hc.shape or not numpy.allclose(hc.toarray(), hp.toarray(), **tol):
+                ctx.violation(K + "matrix-differs/after-set_params", "after set_params and a refit of the same "
+                              "instances the document-term matrix differs from scikit-learn's (%r vs %r)" % (
+                                  hc.shape, hp.shape), cfg=cfg2)
+                break
+            if {" ".join(k): v for k, v in c.vocabulary_.items()} != dict(p.vocabulary_):
+                ctx.violation(K + "vocabulary-column/after-set_params", "after set_params and a refit vocabulary_ no "
+                              "longer maps token tuples to scikit-learn's columns", cfg=cfg2)
+                break
         if len(vp) >= 3 and any(len(k) >= 2 for k in vc if isinstance(k, tuple)):
             ctx.nontriv(cfg)
         ctx.sample({"cfg": cfg, "n_terms": len(vc), "first_terms": sorted(vc, key=vc.get)[:4]})
